@@ -33,6 +33,7 @@ type Prog struct {
 	specFuncs    map[string]*SpecFunc
 	counts       map[string][]string // label -> callee keys
 	countOf      map[string][]string // callee key -> labels
+	byKey        map[string]*ssa.Function
 	globalInvs   []*GlobalInv
 	prot         []int
 	effFree      map[*ssa.Function]bool
@@ -595,4 +596,35 @@ func baseKey(k string) string {
 		return k[:i]
 	}
 	return k
+}
+
+// funcByKey finds a function or method of any loaded package by its contract key.
+func (p *Prog) funcByKey(key string) *ssa.Function {
+	if p.byKey == nil {
+		p.byKey = map[string]*ssa.Function{}
+		add := func(fn *ssa.Function) {
+			if fn == nil {
+				return
+			}
+			k := funcKey(fn)
+			if _, ok := p.byKey[k]; !ok {
+				p.byKey[k] = fn
+			}
+		}
+		for _, sp := range p.ssa.AllPackages() {
+			for _, m := range sp.Members {
+				switch m := m.(type) {
+				case *ssa.Function:
+					add(m)
+				case *ssa.Type:
+					if nt, ok := m.Type().(*types.Named); ok {
+						for i := 0; i < nt.NumMethods(); i++ {
+							add(p.ssa.FuncValue(nt.Method(i)))
+						}
+					}
+				}
+			}
+		}
+	}
+	return p.byKey[key]
 }
